@@ -1,5 +1,6 @@
 import SupervisorModel.Basic.Bytes
 import SupervisorModel.Generated.Rpc
+import SupervisorModel.Model.RpcText
 /-
   XML-RPC dispatch (supervisor/xmlrpc.py, supervisor/rpcinterface.py).
 
@@ -246,12 +247,39 @@ def seq {σ ν : Type} (tbl : Table (Method σ ν)) (env : Nat → σ → σ) : 
     | none => none
     | some r => (seq tbl env rest (f - r.2.2) (k + r.2.2) r.2.1).map fun q => (r.1 :: q.1, q.2)
 
+
+/-! ## the HTTP framing of an answer
+
+  `bodyText` is the marshalled methodResponse (`xmlrpc_marshal(value)`, a `str`).  What is put on
+  the wire is bytes: `http_request.push` encodes a `str` it is given (`as_bytes`), a `bytes` object
+  goes out as it is.  The Content-Length header is whatever `len(...)` the builder computes —
+  the generated `contReq_a9` (immediate answers) and `defResp_a1 ∘ defMore_c0_0` (deferred
+  answers: `more()` hands its body to `getresponse(body)`, which sets the header). -/
+
+structure Framed where
+  contentLength : Int
+  wire : Bytes
+deriving DecidableEq, Repr
+
+/-- `supervisor_xmlrpc_handler.continue_request`, non-deferred branch -/
+def immediateResponse (bodyText : List Char) : Framed :=
+  { contentLength := contReq_a9 bodyText, wire := contReq_c0_0 bodyText }
+
+/-- `DeferredXMLRPCResponse.more` → `getresponse`: the pushed body is text, encoded by `request.push`;
+    the header is `len(as_bytes(body))` -/
+def deferredResponse (bodyText : List Char) : Framed :=
+  { contentLength := defResp_a1 (defMore_c0_0 bodyText), wire := utf8Of (defResp_c0_0 (defMore_c0_0 bodyText)) }
+
+/-- what a client reads as the body: exactly Content-Length bytes -/
+def clientBody (f : Framed) : Bytes := f.wire.take f.contentLength.toNat
+
 /-! ## line protocol
   case rpc <entry>*        entry = <hexns>  |  <hexns>:<hexattr>:o  |  <hexns>:<hexattr>:m<min>,<max>,<beh>
                            beh   = v<id> | f<code> | x | t | d<k>,<final>      final = v<id> | f<code> | x
   ops:  call <hexname> <nargs>              → value <v> | fault <c> | raised <w> | deferred    then  ` ran=<labels|->`
         multi <hexname|*>:<nargs>,...  | -  → results=<v..|f..;...|-> ticks=<n> ran=<labels|->
         gate <name> <mood> <nLeaf>          → fault <c> changed=<0|1> | passes | other
+        frame <i|d> <code points,..|->      → cl=<Content-Length> wire=<hex of the body bytes>
 -/
 abbrev Log := List String
 
@@ -384,6 +412,13 @@ def rpcOps (tbl : Table (Method Log Int)) (s : Log) : List String → List Strin
           let res := if r.1.isEmpty then "-" else ";".intercalate (r.1.map showElem)
           s!"results={res} ticks={countTicks tbl 10000 0 m0 s} ran={showRan s r.2}" :: rpcOps tbl r.2 rest
         | none => "fuel" :: rpcOps tbl s rest
+      | none => "bad-op" :: rpcOps tbl s rest
+    | ["frame", kind, cps] =>
+      let cs : Option (List Char) := if cps = "-" then some [] else (cps.splitOn ",").mapM fun t => t.toNat?.map Char.ofNat
+      match cs with
+      | some t =>
+        let f := if kind = "d" then deferredResponse t else immediateResponse t
+        s!"cl={f.contentLength} wire={hexOfBytes f.wire}" :: rpcOps tbl s rest
       | none => "bad-op" :: rpcOps tbl s rest
     | ["gate", name, mood, nl] =>
       match mood.toInt?, nl.toNat?, gateTable.lookup name with
